@@ -7,7 +7,10 @@ import (
 	"sync"
 	"testing"
 
+	"github.com/corazawaf/coraza/v3"
+	"github.com/corazawaf/coraza/v3/experimental"
 	"github.com/corazawaf/coraza/v3/internal/transformations"
+	"github.com/corazawaf/coraza/v3/types"
 	"pgregory.net/rapid"
 )
 
@@ -53,6 +56,9 @@ type C12Case struct {
 	Req        Req     `json:"request"`
 	MatchedVar bool    `json:"matched_var_scenario,omitempty"`
 	Siblings   bool    `json:"plugin_siblings,omitempty"`
+	// CloseDuringBuild: while the WAF under test is being compiled (after its first rule) another WAF of the process
+	// is built and closed, as a configuration reload does
+	CloseDuringBuild bool `json:"close_during_build,omitempty"`
 }
 
 var c12Targets = [][]Target{
@@ -224,6 +230,7 @@ func genC12(t *rapid.T) *C12Case {
 		c.Req.Post = []KV{{"a", rapid.SampledFrom(c01Values).Draw(t, "pv")}, {"p", "q"}}
 	}
 	c.Req.Cookies = []KV{{"sid", "abc"}}
+	c.CloseDuringBuild = rapid.IntRange(0, 3).Draw(t, "closeduringbuild") == 0
 	return c
 }
 
@@ -258,7 +265,22 @@ func checkC12(c *C12Case) Result {
 	res := Result{}
 	confA := c.RS.Render()
 	confB := uniqueChains(&c.RS).Render()
-	wa, err := newWAF(confA)
+	var wa coraza.WAF
+	var err error
+	if c.CloseDuringBuild {
+		n := 0
+		wa, err = coraza.NewWAF(experimental.WAFConfigWithRuleObserver(coraza.NewWAFConfig(), func(types.RuleMetadata) {
+			n++
+			if n <= 6 { // after each of the first rules
+				if other, err := newWAF("SecRule ARGS \"@rx z\" \"id:7,phase:1,pass,t:none,t:lowercase,t:trim\"\nSecRule ARGS \"@rx y\" \"id:8,phase:1,pass,t:none,t:urlDecode\""); err == nil {
+					closeWAF(other)
+				}
+			}
+		}).WithDirectives(confA))
+		res.Labels = append(res.Labels, "another-waf-closed-during-the-build")
+	} else {
+		wa, err = newWAF(confA)
+	}
 	if err != nil {
 		res.Fail = failf("configuration rejected: %v\n%s", err, confA)
 		return res
